@@ -11,6 +11,7 @@ import (
 	. "verifharness/hlib"
 
 	"github.com/itchyny/gojq"
+	"github.com/itchyny/gojq/cli"
 )
 
 func main() { Register("c10", runC10); Main() }
@@ -131,7 +132,7 @@ func runC10(c *Ctx) {
 	}
 	type site struct {
 		name, op, src string
-		code *gojq.Code
+		code          *gojq.Code
 	}
 	var sites []site
 	for _, st := range []struct{ name, op, src string }{
@@ -249,6 +250,7 @@ func runC10(c *Ctx) {
 		}
 	}
 	c10Literals(c)
+	c10LiteralsCLI(c)
 	c10Floats(c)
 	c.Stats["operands"] = len(ints)
 	c.Stats["evaluations"] = evals
@@ -387,4 +389,65 @@ func c10Floats(c *Ctx) {
 			c.Violation("float bits %d printed as %s: %d significant digits, shortest round-trip form has %d", math.Float64bits(f), s, sig(s), want)
 		}
 	}
+}
+
+// c10LiteralsCLI: the COMMAND (its own encoder, cli/encoder.go) prints a number that reaches the output untouched
+// with the digits it had in the input, whatever its length (implementation-only oracle; in-process through the
+// verif hook cli.VerifRun).
+func c10LiteralsCLI(c *Ctx) {
+	r := c.Rng
+	digits := func(n int, nonzeroFirst bool) string {
+		var sb strings.Builder
+		for i := 0; i < n; i++ {
+			d := r.Intn(10)
+			if i == 0 && nonzeroFirst && d == 0 {
+				d = 1 + r.Intn(9)
+			}
+			sb.WriteByte(byte('0' + d))
+		}
+		return sb.String()
+	}
+	lens := []int{1, 18, 19, 20, 40, 62, 63, 64, 65, 66, 100, 127, 128, 129, 300, 1000}
+	var lits []string
+	for _, n := range lens {
+		lits = append(lits, digits(n, true), "-"+digits(n, true))
+		if n > 3 {
+			k := 1 + r.Intn(n-2)
+			lits = append(lits, digits(k, true)+"."+digits(n-k-1, false))
+			lits = append(lits, digits(1, true)+"."+digits(n-1, false)+"e-"+digits(2, true), digits(n, true)+"E+"+digits(3, true))
+		}
+	}
+	modes := []struct {
+		args   []string
+		wrapL  string
+		wrapR  string
+		expect func(lit string) string
+	}{
+		{[]string{"-c", "."}, "", "", func(l string) string { return l }},
+		{[]string{"."}, "", "", func(l string) string { return l }},
+		{[]string{"-c", "."}, "[", "]", func(l string) string { return "[" + l + "]" }},
+		{[]string{"-c", ".[0]"}, "[", ",1]", func(l string) string { return l }},
+		{[]string{"-c", "."}, `{"a":`, "}", func(l string) string { return `{"a":` + l + "}" }},
+		{[]string{"--tab", "."}, "[", "]", func(l string) string { return "[\n\t" + l + "\n]" }},
+		{[]string{"-r", ".a"}, `{"a":`, "}", func(l string) string { return l }},
+		{[]string{"-c", "[., .]"}, "", "", func(l string) string { return "[" + l + "," + l + "]" }},
+	}
+	n := 0
+	for _, lit := range lits {
+		if !jsonNumRe.MatchString(lit) {
+			continue
+		}
+		for _, m := range modes {
+			var out, errb strings.Builder
+			st := cli.VerifRun(m.args, strings.NewReader(m.wrapL+lit+m.wrapR+"\n"), &out, &errb)
+			n++
+			c.Count("literal-cli")
+			got := strings.TrimSuffix(out.String(), "\n")
+			if st != 0 || got != m.expect(lit) {
+				c.Violation("command %v on input %s%s%s printed %q (status %d, stderr %q): the %d-character literal is not printed with its digits",
+					m.args, m.wrapL, lit, m.wrapR, got, st, errb.String(), len(lit))
+			}
+		}
+	}
+	c.Stats["literal_cli_evals"] = n
 }
